@@ -81,7 +81,7 @@ def handle? (j : J) : Option J :=
     let sj := responseToJson sp
     some (.obj [("model", mj), ("spec", sj), ("quirk_dup", .bool (mj.render != sj.render)),
                 ("validdoc", .bool (PyGql.Spec.validDocB s doc vars)), ("validdoc_why", .str (PyGql.Spec.validDocWhy s doc vars)),
-                ("key_consistent", .bool (PyGql.Spec.keyConsistentB doc))])
+                ("key_consistent", .bool (PyGql.Spec.keyConsistentB doc)), ("ranked", .bool (PyGql.Spec.rankedB doc))])
   | "world" =>
     let s := Driver.schemaOfJson (j.getD "schema")
     let w := fnvWorld s (j.natD "seed") (j.natD "mode")
